@@ -178,13 +178,15 @@ Example C18_vrp_nonvacuous_sequence :
   /\ spec_check ex_inst (mkSt [[4; 2]; [4; 1; 2]]%nat [3%nat] [[2; 9]; [2; 6; 10]]) = true.
 Proof. split; vm_compute; reflexivity. Qed.
 
+(* the result scores 30 (distance) + 1000 * 11 (lateness) + 1000 * 3 (overload of vehicle 0) *)
 Example C18_vrp_nonvacuous_solve :
-  exists st obj, solve default_weights ex_inst [(4, 0, 0); (1, 0, 1); (3, 1, 0)]%nat
-                   [(SyncRemoval 4%nat [1%nat],
-                     SyncAwareInsertion [(2, [(0, 0); (1, 0)]); (4, [(1, 0); (0, 0)])]%nat [(1, 0, 2)]%nat, false);
-                    (RouteRemoval [1%nat], RegretInsertion [(3, 1, 0)]%nat, true)] = Some (st, obj)
-                 /\ spec_chk (default_weights, ex_inst, st, obj) = true.
-Proof. eexists. eexists. split; vm_compute; reflexivity. Qed.
+  solve default_weights ex_inst [(4, 0, 0); (1, 0, 1); (3, 1, 0)]%nat
+        [(SyncRemoval 4%nat [1%nat],
+          SyncAwareInsertion [(2, [(0, 0); (1, 0)]); (4, [(1, 0); (0, 0)])]%nat [(1, 0, 2)]%nat, false);
+         (RouteRemoval [1%nat], RegretInsertion [(3, 1, 0)]%nat, true)]
+  = Some (mkSt [[4; 2; 1]; [4; 2; 3]]%nat [] [[2; 9; 14]; [2; 9; 19]], 14030)
+  /\ spec_chk (default_weights, ex_inst, mkSt [[4; 2; 1]; [4; 2; 3]]%nat [] [[2; 9; 14]; [2; 9; 19]], 14030) = true.
+Proof. split; vm_compute; reflexivity. Qed.
 
 (* the choice-computing operators on the same instance: sync_aware_insertion from the empty plan (customer 2 gets its two
    vehicles, customer 4 finds only one feasible vehicle and stays unassigned), worst_removal with candidate indices 0, 1,
